@@ -68,7 +68,7 @@ def check(tier, seed, replay=None):
     run.cov["trusted_base"] = wire.WIRE_TRUSTED
     broken = None
     try:
-        wire.maybe_proof(run, "props/C06.v", ["C06_byte"])
+        wire.maybe_proof(run, "props/C06.v", ["C06_byte", "C06_stream"])
     except BrokenTie as e:
         broken = e
     found = False
